@@ -32,20 +32,9 @@ instance (w : Writes) (out : Bytes) : Decidable (WritesDeliver w out) := by
 def finalView (cfg : Cfg) (lib : Bytes → Option Bytes) (t : Task) (orig : Fs) : View :=
   fun p => if p = t.dst then some (outBytes cfg lib t orig) else none
 
-/-- guard of the known finding K-C20-1: an input is *spelled* `<dst>.bak` -/
-def trigBakInput (t : Task) : Bool := t.srcs.contains (bak t.dst)
-
 /-- the state on disk when the process is killed after `k` system calls of `minify(t)` -/
 def crashState (cfg : Cfg) (w : Writes) (t : Task) (orig : Fs) (k : Nat) : Fs :=
   run ((minifyOps cfg w t orig).take k) orig
-
-/-- **Full statement** (false on the current code, see `crash_safe_counterexample`):
-    at every crash point every input file is still available. -/
-def crash_safe_full : Prop :=
-  ∀ (cfg : Cfg) (lib : Bytes → Option Bytes) (w : Writes) (t : Task) (orig : Fs) (k : Nat),
-    InputsExist t orig → WritesDeliver w (outBytes cfg lib t orig) →
-    SafeInv (viewOf orig.files) (viewOf (crashState cfg w t orig k).files)
-      (finalView cfg lib t orig) (inputFiles t) [t.dst]
 
 theorem view_get (fs : Fs) (p : Path) : viewOf fs.files p = fs.get p := rfl
 
@@ -63,6 +52,18 @@ theorem mem_replaceFirst (l : List Path) (a b : Path) (h : a ∈ l) : b ∈ repl
       rcases List.mem_cons.mp h with h | h
       · exact absurd h.symm hx
       · exact Or.inr (ih h)
+
+theorem renamed_facts (t : Task) (fs : Fs) (h : renamed t fs = true) :
+    t.dst ∈ t.srcs ∧ (fs.get t.dst).isSome ∧ fs.get (bak t.dst) = none ∧ blocked t fs = false := by
+  simp only [renamed, sameFile, bakExists, Bool.and_eq_true, Bool.not_eq_true', Bool.or_eq_false_iff,
+    List.contains_iff_mem] at h
+  obtain ⟨⟨⟨_, h1⟩, h2⟩, h3, _⟩ := h
+  refine ⟨h1, h2, ?_, ?_⟩
+  · cases hg : fs.get (bak t.dst) with
+    | none => rfl
+    | some v => simp [hg] at h3
+  · simp only [blocked, bakExists, Bool.and_eq_false_iff, Bool.or_eq_false_iff]
+    exact Or.inr ⟨h3, by assumption⟩
 
 /-- **frame** (every task shape, chunking, outcome, crash point): a path other than `dst` and `dst.bak`
     is never changed, created or removed. -/
@@ -89,16 +90,10 @@ private theorem inplace_good (cfg : Cfg) (lib : Bytes → Option Bytes) (w : Wri
     (hd : t.dst ≠ []) (hn : noop t = false) (hr : renamed t orig = true)
     (hw : WritesDeliver w (outBytes cfg lib t orig)) :
     AllPrefixes (Good orig t.dst (outBytes cfg lib t orig)) (minifyOps cfg w t orig) orig := by
-  have hsome : (orig.get t.dst).isSome := by
-    simp only [renamed, Bool.and_eq_true] at hr; exact hr.2
+  obtain ⟨_, hsome, _, hnb⟩ := renamed_facts t orig hr
   obtain ⟨v, hv⟩ := Option.isSome_iff_exists.mp hsome
   have hbd : bak t.dst ≠ t.dst := bak_ne _
-  have hcont : (srcs1 t orig).contains (bak t.dst) = true := by
-    simp only [srcs1, hr, if_true, List.contains_iff_mem]
-    apply mem_replaceFirst
-    simp only [renamed, Bool.and_eq_true, List.contains_iff_mem] at hr
-    exact hr.1.2
-  simp only [minifyOps, hn, Bool.false_eq_true, if_false, preOps, hr, if_true,
+  simp only [minifyOps, hn, hnb, Bool.or_self, Bool.false_eq_true, if_false, preOps, hr, if_true,
     List.cons_append, List.nil_append]
   -- state after the rename
   have hs1 : (step orig (.rename t.dst (bak t.dst))).get (bak t.dst) = some v := by
@@ -121,7 +116,7 @@ private theorem inplace_good (cfg : Cfg) (lib : Bytes → Option Bytes) (w : Wri
       split
       · exact attr_prefixes _ _ _ _ _ _ _ hb2
       · exact .nil hb2
-    · simp only [postOps, hcont, if_true]
+    · simp only [postOps, hr, if_true]
       cases hok : w.isOk with
       | true =>
         simp only [if_true, List.cons_append, List.nil_append]
@@ -130,11 +125,7 @@ private theorem inplace_good (cfg : Cfg) (lib : Bytes → Option Bytes) (w : Wri
         apply attr_prefixes
         rw [get_step_untouched _ _ _ (by simpa [touches] using hbd.symm), hd2, hw hok]
       | false =>
-        have hne : t.dst.isEmpty = false := by
-          cases h : t.dst with
-          | nil => exact absurd h hd
-          | cons _ _ => rfl
-        simp only [Bool.false_eq_true, if_false, hne, List.cons_append, List.nil_append]
+        simp only [Bool.false_eq_true, if_false, List.cons_append, List.nil_append]
         refine .cons (Or.inr (Or.inl (hb2.trans hv.symm))) (.cons ?_ ?_)
         · refine Or.inr (Or.inl ?_)
           rw [get_step_untouched _ _ _ (by simpa [touches] using hbd), hb2, hv]
@@ -142,78 +133,91 @@ private theorem inplace_good (cfg : Cfg) (lib : Bytes → Option Bytes) (w : Wri
           apply attr_prefixes
           rw [get_rename_dst, get_step_untouched _ _ _ (by simpa [touches] using hbd), hb2]; rfl
 
-/-- **crash_safe** (partial: guard `¬ trigBakInput t`, the trigger of K-C20-1).
+/-- **crash_safe** (full strength since the fixes 3823c65 / 44ee05b in `cmd/minify`).
     For every task shape (separate output, in place, bundle — also onto one of its inputs —, sync copy),
     every library result (`lib` arbitrary: success or error), every write outcome (any chunking; a write
     error after arbitrary bytes) and **every crash point `k`**: every input file is intact at its path,
     or intact at `<path>.bak`, or it is the destination and holds the complete new output; and inputs that
-    are not the destination are unchanged. -/
-theorem crash_safe_partial (cfg : Cfg) (lib : Bytes → Option Bytes) (w : Writes) (t : Task) (orig : Fs)
-    (k : Nat) (hex : InputsExist t orig) (hw : WritesDeliver w (outBytes cfg lib t orig))
-    (hg : trigBakInput t = false) :
+    are not the destination are unchanged.  No guard: an input may be spelled `<dst>.bak`, a `<dst>.bak`
+    may exist. -/
+theorem crash_safe (cfg : Cfg) (lib : Bytes → Option Bytes) (w : Writes) (t : Task) (orig : Fs)
+    (k : Nat) (hex : InputsExist t orig) (hw : WritesDeliver w (outBytes cfg lib t orig)) :
     SafeInv (viewOf orig.files) (viewOf (crashState cfg w t orig k).files)
       (finalView cfg lib t orig) (inputFiles t) [t.dst] := by
   intro p hp
   have hps : p ∈ t.srcs ∧ p ≠ [] := by
     simp only [inputFiles, List.mem_filter, Bool.not_eq_true', List.isEmpty_eq_false_iff] at hp
     exact hp
-  have hpb : p ≠ bak t.dst := by
-    intro h
-    simp only [trigBakInput] at hg
-    have : t.srcs.contains (bak t.dst) = true := by
-      rw [List.contains_iff_mem, ← h]; exact hps.1
-    rw [this] at hg; cases hg
   by_cases hpd : p = t.dst
   · -- the destination is an input
     refine ⟨?_, fun hn => absurd (by simp [hpd]) hn⟩
     have hd : t.dst ≠ [] := hpd ▸ hps.2
     simp only [SafeAt, view_get, bakName_eq, finalView, hpd, if_true, List.mem_singleton, true_and]
-    by_cases hn : noop t = true
+    by_cases hn : (noop t || blocked t orig) = true
     · left
       simp [crashState, minifyOps, hn, run]
-    · have hn' : noop t = false := by simpa using hn
+    · have hn' : noop t = false ∧ blocked t orig = false := by simpa using hn
       have hr : renamed t orig = true := by
         have hne : t.dst.isEmpty = false := by
           cases h : t.dst with
           | nil => exact absurd h hd
           | cons _ _ => rfl
-        simp only [renamed, hne, Bool.not_false, Bool.true_and, Bool.and_eq_true, List.contains_iff_mem]
-        exact ⟨hpd ▸ hps.1, hex _ (hpd ▸ hp)⟩
-      exact inplace_good cfg lib w t orig hd hn' hr hw k
-  · have hfr := frame cfg w t orig k p hpd hpb
+        have hsf : sameFile t orig = true := by
+          simp only [sameFile, hne, Bool.not_false, Bool.true_and, Bool.and_eq_true, List.contains_iff_mem]
+          exact ⟨hpd ▸ hps.1, hex _ (hpd ▸ hp)⟩
+        have hb := hn'.2
+        simp only [blocked, hsf, Bool.true_and] at hb
+        simp [renamed, hsf, hb]
+      exact inplace_good cfg lib w t orig hd hn'.1 hr hw k
+  · -- any other input is never touched: `dst.bak` is only touched after a rename, and then it did not exist
+    have hfr : (crashState cfg w t orig k).get p = orig.get p := by
+      cases hr : renamed t orig with
+      | true =>
+        obtain ⟨_, _, hnone, _⟩ := renamed_facts t orig hr
+        have hpb : p ≠ bak t.dst := by
+          intro h
+          have := hex p hp
+          rw [h, hnone] at this; cases this
+        apply get_run_untouched
+        intro op ho hq
+        rcases touches_minifyOps cfg w t orig op (List.mem_of_mem_take ho) p hq with h | h
+        · exact hpd h
+        · exact hpb h
+      | false =>
+        apply get_run_untouched
+        intro op ho hq
+        exact hpd (touches_minifyOps_strict cfg w t orig hr op (List.mem_of_mem_take ho) p hq)
     refine ⟨Or.inl ?_, fun _ => ?_⟩ <;> simpa only [view_get] using hfr
 
-/-- Witness of K-C20-1: `minify --type=css -o a.css a.css.bak` — the input is removed by the
-    "remove the renamed original" loop, which compares *names* instead of remembering the rename. -/
-theorem crash_safe_counterexample : ¬ crash_safe_full := by
-  intro h
-  have h1 := h {} (fun _ => some []) (.ok []) { srcs := [strBytes "a.css.bak"], dst := strBytes "a.css" }
-    { files := [(strBytes "a.css.bak", strBytes "b{color:blue}")] } 100
-    (by decide) (by decide) (strBytes "a.css.bak") (by decide)
-  obtain ⟨h2, _⟩ := h1
-  rcases h2 with h2 | h2 | ⟨h2, _⟩
-  · revert h2; decide
-  · revert h2; decide
-  · revert h2; decide
+/-- regression (K-C20-1, fixed by 3823c65): `minify --type=css -o a.css a.css.bak` keeps its input -/
+example : (run (minifyOps {} (.ok [strBytes "b{}"]) { srcs := [strBytes "a.css.bak"], dst := strBytes "a.css" }
+      { files := [(strBytes "a.css.bak", strBytes "b { }")] })
+    { files := [(strBytes "a.css.bak", strBytes "b { }")] }).get (strBytes "a.css.bak") = some (strBytes "b { }") := by
+  decide
 
-/-- the guard is satisfiable by the ordinary in-place task, and the hypotheses are not vacuous -/
+/-- regression (K-C20-2 / K-C19-1, fixed by 44ee05b): an existing `a.css.bak` blocks the in-place task -/
+example : minifyOps {} (.ok [strBytes "a{}"]) { srcs := [strBytes "a.css", strBytes "a.css.bak"], dst := strBytes "a.css" }
+      { files := [(strBytes "a.css", strBytes "a { }"), (strBytes "a.css.bak", strBytes "b { }")] } = [] := by
+  decide
+
+/-- the hypotheses are not vacuous -/
 example : let t : Task := { srcs := [strBytes "a.css"], dst := strBytes "a.css" }
     let orig : Fs := { files := [(strBytes "a.css", strBytes "a { }")] }
-    trigBakInput t = false ∧ InputsExist t orig ∧
+    InputsExist t orig ∧
       WritesDeliver (.ok [strBytes "a", strBytes "{}"]) (outBytes {} (fun _ => some (strBytes "a{}")) t orig) := by
-  refine ⟨by decide, by decide, by decide⟩
+  refine ⟨by decide, by decide⟩
 
 /-! ## after the whole sequence -/
 
-/-- **done_clean** (destination): after the complete sequence of a minify task whose writes succeed
-    the destination holds exactly the bytes handed to the write loop — the library's output, or the
-    original input bytes when the minifier failed (`outBytes`). -/
+/-- **done_clean** (destination): after the complete sequence of a minify task that is not refused and
+    whose writes succeed the destination holds exactly the bytes handed to the write loop — the library's
+    output, or the original input bytes when the minifier failed (`outBytes`). -/
 theorem done_dst (cfg : Cfg) (lib : Bytes → Option Bytes) (w : Writes) (t : Task) (orig : Fs)
-    (hd : t.dst ≠ []) (hn : noop t = false) (hok : w.isOk = true)
+    (hd : t.dst ≠ []) (hn : noop t = false) (hb : blocked t orig = false) (hok : w.isOk = true)
     (hw : WritesDeliver w (outBytes cfg lib t orig)) :
     (run (minifyOps cfg w t orig) orig).get t.dst = some (outBytes cfg lib t orig) := by
   have hbd : bak t.dst ≠ t.dst := bak_ne _
-  simp only [minifyOps, hn, Bool.false_eq_true, if_false, run_append]
+  simp only [minifyOps, hn, hb, Bool.or_self, Bool.false_eq_true, if_false, run_append]
   have hd2 := get_dst_after_mid w t orig (run (preOps t orig) orig) hd
   rw [hw hok] at hd2
   generalize run (midOps w t orig) (run (preOps t orig) orig) = s2 at hd2
@@ -231,30 +235,20 @@ theorem done_dst (cfg : Cfg) (lib : Bytes → Option Bytes) (w : Writes) (t : Ta
 /-- **done_clean** (no backup left, = C19 `inplace_no_bak_left`): after a complete in-place run —
     successful writes *or* write error — no `dst.bak` exists. -/
 theorem done_no_bak (cfg : Cfg) (w : Writes) (t : Task) (orig : Fs)
-    (hd : t.dst ≠ []) (hn : noop t = false) (hs : t.sync = false) (hr : renamed t orig = true) :
+    (hn : noop t = false) (hs : t.sync = false) (hr : renamed t orig = true) :
     (run (minifyOps cfg w t orig) orig).get (bak t.dst) = none := by
   have hbd : bak t.dst ≠ t.dst := bak_ne _
-  have hcont : (srcs1 t orig).contains (bak t.dst) = true := by
-    simp only [srcs1, hr, if_true, List.contains_iff_mem]
-    apply mem_replaceFirst
-    simp only [renamed, Bool.and_eq_true, List.contains_iff_mem] at hr
-    exact hr.1.2
-  have hne : t.dst.isEmpty = false := by
-    cases h : t.dst with
-    | nil => exact absurd h hd
-    | cons _ _ => rfl
-  simp only [minifyOps, hn, Bool.false_eq_true, if_false, run_append, tailOps, hs]
+  obtain ⟨_, hsome, _, hnb⟩ := renamed_facts t orig hr
+  simp only [minifyOps, hn, hnb, Bool.or_self, Bool.false_eq_true, if_false, run_append, tailOps, hs]
   refine (attr_prefixes _ _ _ _ _ _ _ ?_).last
-  simp only [postOps, hcont, if_true]
+  simp only [postOps, hr, if_true]
   cases hok : w.isOk with
   | true => simp only [if_true, run_cons, run_nil]; exact get_remove _ _
   | false =>
-    simp only [Bool.false_eq_true, if_false, hne, run_cons, run_nil]
+    simp only [Bool.false_eq_true, if_false, run_cons, run_nil]
     apply get_rename_src _ _ _ hbd
     rw [get_step_untouched _ _ _ (by simpa [touches] using hbd)]
     -- dst.bak still holds the original after the middle segment
-    have hsome : (orig.get t.dst).isSome := by
-      simp only [renamed, Bool.and_eq_true] at hr; exact hr.2
     obtain ⟨v, hv⟩ := Option.isSome_iff_exists.mp hsome
     have hs1 : (run (preOps t orig) orig).get (bak t.dst) = some v := by
       simp only [preOps, hr, if_true, run_cons, run_nil]; rw [get_rename_dst, hv]; rfl
@@ -262,58 +256,40 @@ theorem done_no_bak (cfg : Cfg) (w : Writes) (t : Task) (orig : Fs)
       (fun op ho hq => hbd (touches_midOps _ _ _ _ ho _ hq)) hs1).last]
     rfl
 
-/-- when the destination is not renamed and no input is spelled `dst.bak`, `dst.bak` is not touched at all -/
+/-- when the destination is not renamed, `dst.bak` is not touched at all — whatever the task reads -/
 theorem bak_untouched (cfg : Cfg) (w : Writes) (t : Task) (orig : Fs) (k : Nat)
-    (hr : renamed t orig = false) (hg : trigBakInput t = false) :
+    (hr : renamed t orig = false) :
     (crashState cfg w t orig k).get (bak t.dst) = orig.get (bak t.dst) := by
-  have hbd : bak t.dst ≠ t.dst := bak_ne _
-  have hs1 : srcs1 t orig = t.srcs := by simp [srcs1, hr]
   apply get_run_untouched
   intro op ho hq
-  have ho := List.mem_of_mem_take ho
-  simp only [minifyOps] at ho
-  split at ho
-  · simp at ho
-  · simp only [List.mem_append] at ho
-    rcases ho with (ho | ho) | ho
-    · simp [preOps, hr] at ho
-    · exact hbd (touches_midOps _ _ _ _ ho _ hq)
-    · simp only [tailOps, postOps, hs1] at ho
-      simp only [trigBakInput] at hg
-      simp only [hg, Bool.false_eq_true, if_false, List.nil_append] at ho
-      split at ho
-      · split at ho
-        · rw [touches_attrOps _ _ _ _ _ ho] at hq; simp at hq
-        · simp at ho
-      · rw [touches_attrOps _ _ _ _ _ ho] at hq; simp at hq
+  exact bak_ne _ (touches_minifyOps_strict cfg w t orig hr op (List.mem_of_mem_take ho) _ hq)
+
+/-- a refused task (`<dst>.bak` exists) touches nothing and reports failure -/
+theorem blocked_touches_nothing (cfg : Cfg) (lib : Bytes → Option Bytes) (w : Writes) (t : Task) (orig : Fs)
+    (hs : t.skip = false) (hn : noop t = false) (hb : blocked t orig = true) :
+    minifyOps cfg w t orig = [] ∧ minifyOk cfg lib w t orig = false := by
+  simp [minifyOps, minifyOk, hb, hs, hn]
 
 /-- **write_error_restores**: a write error during an in-place run (after arbitrary bytes reached the
-    file) ends with the original back at `dst` and no `dst.bak`. -/
-theorem write_error_restores (cfg : Cfg) (written : List Bytes) (t : Task) (orig : Fs)
-    (hd : t.dst ≠ []) (hn : noop t = false) (hs : t.sync = false) (hr : renamed t orig = true) :
+    file) ends with the original back at `dst` and no `dst.bak`, and the task reports failure. -/
+theorem write_error_restores (cfg : Cfg) (lib : Bytes → Option Bytes) (written : List Bytes) (t : Task) (orig : Fs)
+    (hn : noop t = false) (hs : t.sync = false) (hr : renamed t orig = true) :
     (run (minifyOps cfg (.fail written) t orig) orig).get t.dst = orig.get t.dst ∧
-    (run (minifyOps cfg (.fail written) t orig) orig).get (bak t.dst) = none := by
-  refine ⟨?_, done_no_bak cfg _ t orig hd hn hs hr⟩
+    (run (minifyOps cfg (.fail written) t orig) orig).get (bak t.dst) = none ∧
+    minifyOk cfg lib (.fail written) t orig = false := by
+  obtain ⟨_, hsome, _, hnb⟩ := renamed_facts t orig hr
+  have hsk : t.skip = false := by
+    simp only [noop, Bool.or_eq_false_iff] at hn; exact hn.1
+  refine ⟨?_, done_no_bak cfg _ t orig hn hs hr, by simp [minifyOk, hsk, hn, hnb, hs, Writes.isOk]⟩
   have hbd : bak t.dst ≠ t.dst := bak_ne _
-  have hcont : (srcs1 t orig).contains (bak t.dst) = true := by
-    simp only [srcs1, hr, if_true, List.contains_iff_mem]
-    apply mem_replaceFirst
-    simp only [renamed, Bool.and_eq_true, List.contains_iff_mem] at hr
-    exact hr.1.2
-  have hne : t.dst.isEmpty = false := by
-    cases h : t.dst with
-    | nil => exact absurd h hd
-    | cons _ _ => rfl
-  have hsome : (orig.get t.dst).isSome := by
-    simp only [renamed, Bool.and_eq_true] at hr; exact hr.2
   obtain ⟨v, hv⟩ := Option.isSome_iff_exists.mp hsome
   have hs1 : (run (preOps t orig) orig).get (bak t.dst) = some v := by
     simp only [preOps, hr, if_true, run_cons, run_nil]; rw [get_rename_dst, hv]; rfl
   have hb2 := (AllPrefixes.untouched _ _ _ _
       (fun op ho hq => hbd (touches_midOps (.fail written) t orig op ho _ hq)) hs1).last
-  simp only [minifyOps, hn, Bool.false_eq_true, if_false, run_append, tailOps, hs]
+  simp only [minifyOps, hn, hnb, Bool.or_self, Bool.false_eq_true, if_false, run_append, tailOps, hs]
   refine (attr_prefixes _ _ _ _ _ _ _ ?_).last
-  simp only [postOps, hcont, if_true, Writes.isOk, Bool.false_eq_true, if_false, hne, run_cons, run_nil]
+  simp only [postOps, hr, if_true, Writes.isOk, Bool.false_eq_true, if_false, run_cons, run_nil]
   rw [get_rename_dst, get_step_untouched _ _ _ (by simpa [touches] using hbd), hb2, hv]; rfl
 
 /-- the minifier failed ⇒ the bytes written are the bytes read (C19 `fallback_original`) -/
@@ -363,8 +339,7 @@ theorem crash_safe_parallel (cfg : Cfg) (lib : Bytes → Option Bytes) (orig : F
     (hi : ts[i]? = some (t, w))
     (hdisj : ∀ j tj wj, j ≠ i → ts[j]? = some (tj, wj) →
       tj.dst ∉ footprint t ∧ bak tj.dst ∉ footprint t)
-    (hex : InputsExist t orig) (hw : WritesDeliver w (outBytes cfg lib t orig))
-    (hg : trigBakInput t = false) :
+    (hex : InputsExist t orig) (hw : WritesDeliver w (outBytes cfg lib t orig)) :
     SafeInv (viewOf orig.files)
       (viewOf (run (interleave (ts.map (fun tw => minifyOps cfg tw.2 tw.1 orig)) sch) orig).files)
       (finalView cfg lib t orig) (inputFiles t) [t.dst] := by
@@ -385,7 +360,7 @@ theorem crash_safe_parallel (cfg : Cfg) (lib : Bytes → Option Bytes) (orig : F
       · exact h1 (h ▸ hqS)
       · exact h2 (h ▸ hqS))
   rw [hrem] at hk
-  refine safeInv_congr _ _ _ _ _ _ ?_ (crash_safe_partial cfg lib w t orig k hex hw hg)
+  refine safeInv_congr _ _ _ _ _ _ ?_ (crash_safe cfg lib w t orig k hex hw)
   intro p hp
   have hps : p ∈ t.srcs := by
     simp only [inputFiles, List.mem_filter] at hp; exact hp.1
@@ -434,27 +409,27 @@ theorem touches_headOps (t : Task) (fs : Fs) :
       · subst h; left; simpa [touches] using hq
 
 /-- **what a task reads** (the sources are opened lazily, *after* the destination has been truncated):
-    with pairwise different sources, none of them spelled `<dst>.bak`, the bytes handed to the minifier
-    are the original contents of the sources joined by the separator — also when one source is the
+    with pairwise different sources, in a task that is not refused, the bytes handed to the minifier are
+    the original contents of the sources joined by the separator — also when one source is the
     destination (it is read from its backup). -/
 theorem inputBytes_spec (cfg : Cfg) (t : Task) (orig : Fs) (hex : InputsExist t orig)
-    (hg : trigBakInput t = false) (hnd : t.srcs.Nodup) :
+    (hb : blocked t orig = false) (hnd : t.srcs.Nodup) :
     inputBytes cfg t orig = t.sep.intercalate (t.srcs.map (contentOf cfg orig)) := by
   simp only [inputBytes]
   congr 1
   have hbd : bak t.dst ≠ t.dst := bak_ne _
-  have hgn : bak t.dst ∉ t.srcs := by
-    intro h
-    simp only [trigBakInput] at hg
-    rw [List.contains_iff_mem.mpr h] at hg; cases hg
-  have hframe : ∀ q, q ≠ t.dst → q ≠ bak t.dst →
-      (run (headOps t orig) orig).get q = orig.get q := by
-    intro q h1 h2
-    apply get_run_untouched
-    intro op ho hq
-    rcases touches_headOps t orig op ho q hq with h | h
-    · exact h1 h
-    · exact h2 h
+  have hout : ∀ op ∈ openOps (srcs1 t orig) ++ outOps t orig, ∀ q ∈ touches op, q = t.dst := by
+    intro op ho q hq
+    simp only [List.mem_append] at ho
+    rcases ho with ho | ho
+    · rw [touches_openOps _ _ ho] at hq; simp at hq
+    · simp only [outOps] at ho
+      split at ho
+      · simp at ho
+      · simp only [List.mem_append, List.mem_cons, List.not_mem_nil, or_false] at ho
+        rcases ho with ho | ho
+        · rw [touches_mkdirOps _ _ _ ho] at hq; simp at hq
+        · subst ho; simpa [touches] using hq
   cases hr : renamed t orig with
   | false =>
     simp only [srcs1, hr, Bool.false_eq_true, if_false]
@@ -465,54 +440,56 @@ theorem inputBytes_spec (cfg : Cfg) (t : Task) (orig : Fs) (hex : InputsExist t 
     · simp [hse]
     · simp only [hse, Bool.false_eq_true, if_false]
       by_cases hsd : s = t.dst
-      · -- then the destination is an existing source: it would have been renamed
+      · -- then the destination is an existing source: renamed, or refused
         exfalso
         have hne : t.dst.isEmpty = false := by rw [← hsd]; simpa using hse
         have hin : s ∈ inputFiles t := by
           simp only [inputFiles, List.mem_filter]; exact ⟨hs, by simpa using hse⟩
-        have := hex s hin
-        simp only [renamed, hne, Bool.not_false, Bool.true_and, Bool.and_eq_false_iff] at hr
-        rcases hr with hr | hr
-        · rw [← hsd] at hr
-          rw [List.contains_iff_mem.mpr hs] at hr; cases hr
-        · rw [← hsd, this] at hr; cases hr
-      · rw [hframe s hsd (fun h => hgn (h ▸ hs))]
+        have hsf : sameFile t orig = true := by
+          simp only [sameFile, hne, Bool.not_false, Bool.true_and, Bool.and_eq_true, List.contains_iff_mem]
+          exact ⟨hsd ▸ hs, hsd ▸ hex s hin⟩
+        simp only [renamed, hsf, Bool.true_and, Bool.not_eq_false'] at hr
+        simp [blocked, hsf, hr] at hb
+      · congr 1
+        apply get_run_untouched
+        intro op ho hq
+        simp only [headOps, preOps, hr, Bool.false_eq_true, if_false, List.nil_append] at ho
+        have := hout op (by simpa [srcs1, hr] using ho) s hq
+        exact hsd this
   | true =>
-    have hr' := hr
-    simp only [renamed, Bool.and_eq_true, List.contains_iff_mem, Bool.not_eq_true',
-      List.isEmpty_eq_false_iff] at hr'
-    obtain ⟨⟨hne, hmem⟩, hsome⟩ := hr'
+    obtain ⟨hmem, hsome, hnone, _⟩ := renamed_facts t orig hr
+    have hde : t.dst.isEmpty = false := by
+      simp only [renamed, sameFile, Bool.and_eq_true, Bool.not_eq_true'] at hr; exact hr.1.1.1
     simp only [srcs1, hr, if_true]
     apply map_replaceFirst _ _ _ _ _ hnd
     · -- the backup holds what the destination held
-      have hb : (run (headOps t orig) orig).get (bak t.dst) = orig.get t.dst := by
-        simp only [headOps, preOps, hr, if_true, List.cons_append, List.nil_append,
-          run_cons]
+      have hb2 : (run (headOps t orig) orig).get (bak t.dst) = orig.get t.dst := by
+        simp only [headOps, preOps, hr, if_true, List.cons_append, List.nil_append, run_cons]
         rw [get_run_untouched]
         · rw [get_rename_dst]
           obtain ⟨v, hv⟩ := Option.isSome_iff_exists.mp hsome
           rw [hv]; rfl
         · intro op ho hq
-          simp only [List.mem_append] at ho
-          rcases ho with ho | ho
-          · rw [touches_openOps _ _ ho] at hq; simp at hq
-          · simp only [outOps] at ho
-            split at ho
-            · simp at ho
-            · simp only [List.mem_append, List.mem_cons, List.not_mem_nil, or_false] at ho
-              rcases ho with ho | ho
-              · rw [touches_mkdirOps _ _ _ ho] at hq; simp at hq
-              · subst ho
-                simp only [touches, List.mem_cons, List.not_mem_nil, or_false] at hq
-                exact hbd hq
+          have := hout op (by simpa [srcs1, hr] using ho) _ hq
+          exact hbd this
       have hbe : (bak t.dst).isEmpty = false := by simp [bak, bakSuffix]
-      have hde : t.dst.isEmpty = false := by simpa using hne
-      simp only [contentOf, hbe, hde, Bool.false_eq_true, if_false, hb]
+      simp only [contentOf, hbe, hde, Bool.false_eq_true, if_false, hb2]
     · intro s hs hsd
       simp only [contentOf]
       by_cases hse : s.isEmpty = true
       · simp [hse]
       · simp only [hse, Bool.false_eq_true, if_false]
-        rw [hframe s hsd (fun h => hgn (h ▸ hs))]
+        congr 1
+        have hin : s ∈ inputFiles t := by
+          simp only [inputFiles, List.mem_filter]; exact ⟨hs, by simpa using hse⟩
+        have hsb : s ≠ bak t.dst := by
+          intro h
+          have := hex s hin
+          rw [h, hnone] at this; cases this
+        apply get_run_untouched
+        intro op ho hq
+        rcases touches_headOps t orig op ho s hq with h | h
+        · exact hsd h
+        · exact hsb h
 
 end Verif.Props.C20
